@@ -113,3 +113,23 @@ package ice
 //@   props C07
 //@   ensures unknown-id-is-an-error: pair == nil ==> lookupErr != nil
 //@   ensures only-a-succeeded-pair-passes: lookupErr == nil ==> pair != nil && pair.state == CandidatePairStateSucceeded && pair == c.agent.pairsByID[pairID]
+
+// The receive loop attributes every datagram to the source reported by the read that delivered it
+// (never to the source of an earlier datagram) and hands on exactly the bytes that read returned.
+//@ func (*candidateBase).recvLoop
+//@   props C07 C02
+//@   opt nosafety
+//@   ghostvar viaAddrPort bool = false
+//@   ghostvar reads int = 0
+//@   ghostvar convertedAt int = 0 - 1
+//@   ghostvar src int = 0
+//@   site call ReadFromAddrPort#1 ghost viaAddrPort := true
+//@   site call ReadFromAddrPort#1 ghost reads := reads + 1
+//@   site call ReadFromAddrPort#1 ghost src := result1
+//@   site call ReadFrom#1 ghost viaAddrPort := false
+//@   site call ReadFrom#1 ghost reads := reads + 1
+//@   site call netAddrToAddrPort#1 assert converts-the-address-this-read-reported: arg0 == netAddr
+//@   site call netAddrToAddrPort#1 ghost convertedAt := reads
+//@   site call netAddrToAddrPort#1 ghost src := result
+//@   site call handleInboundPacket#1 assert hands-on-the-bytes-of-this-read: arg1.base == buf.base && arg1.off == buf.off && len(arg1) == n
+//@   site call handleInboundPacket#1 assert the-source-is-the-one-this-read-reported: (viaAddrPort || convertedAt == reads) && arg2 == src
